@@ -179,3 +179,44 @@ Proof.
   rewrite nth_error_set_other by assumption. rewrite Hn.
   apply lookup_remove_other. exact (I2 o o' ob ob' Hne E Hn Eo Ho).
 Qed.
+
+(* ---- derived files survive anything that happens to their source ------------------------------------------------ *)
+Lemma dstep_derived_prefix ds e : exists ext, snd (dstep ds e) = snd ds ++ ext.
+Proof. destruct e; simpl; [exists []; rewrite app_nil_r | eexists]; reflexivity. Qed.
+
+Lemma drun_from_derived_prefix : forall h ds, exists ext, snd (fold_left dstep h ds) = snd ds ++ ext.
+Proof.
+  induction h as [|e t IH]; intros ds; simpl.
+  - exists []. rewrite app_nil_r. reflexivity.
+  - destruct (IH (dstep ds e)) as [x Hx]. destruct (dstep_derived_prefix ds e) as [y Hy].
+    exists (y ++ x). rewrite Hx, Hy, app_assoc. reflexivity.
+Qed.
+
+Lemma derived_survives h1 h2 d x :
+  nth_error (snd (drun h1)) d = Some x -> use (drun (h1 ++ h2)) d = x.
+Proof.
+  intros H. unfold use, drun. rewrite fold_left_app.
+  destruct (drun_from_derived_prefix h2 (fold_left dstep h1 (st0, []))) as [ext E].
+  rewrite E. fold (drun h1). rewrite nth_error_app1.
+  - rewrite H. reflexivity.
+  - apply nth_error_Some. congruence.
+Qed.
+
+Lemma drun_fst : forall h ds, fst (fold_left dstep h ds) = fold_left impl_step (prims_of h) (fst ds).
+Proof.
+  induction h as [|e t IH]; intros ds; simpl; auto.
+  destruct e; simpl; rewrite IH; reflexivity.
+Qed.
+
+(* deriving from an object that received no close captures that object's own file, and every later use returns it *)
+Lemma derive_captures_source h1 h2 o ob :
+  nth_error (objs (impl_run (prims_of h1))) o = Some ob -> ~ In (Close o) (prims_of h1) ->
+  use (drun (h1 ++ Derive o :: h2)) (length (snd (drun h1))) = Some (o_file ob).
+Proof.
+  intros Hn Hc.
+  replace (h1 ++ Derive o :: h2) with ((h1 ++ [Derive o]) ++ h2) by (rewrite <- app_assoc; reflexivity).
+  apply derived_survives.
+  unfold drun. rewrite fold_left_app. simpl. fold (drun h1).
+  rewrite nth_error_app2 by lia. rewrite Nat.sub_diag. simpl. f_equal.
+  unfold drun. rewrite drun_fst. simpl. apply close_local; assumption.
+Qed.
